@@ -122,11 +122,34 @@ func (x *X) eval(env *Env, e ast.Expr) TV {
 	case *ast.BinaryExpr:
 		return x.evalBinary(env, e)
 	case *ast.SelectorExpr:
+		if id, ok := e.X.(*ast.Ident); ok {
+			if _, isVar := env.vars[id.Name]; !isVar {
+				// package-qualified constant
+				for _, imp := range env.pkg.Imports() {
+					if imp.Name() == id.Name {
+						if c, ok := imp.Scope().Lookup(e.Sel.Name).(*types.Const); ok {
+							return TV{x.constVal(ssa.NewConst(c.Val(), c.Type())), c.Type()}
+						}
+						if v, ok := imp.Scope().Lookup(e.Sel.Name).(*types.Var); ok {
+							if sp := x.prog.SSA.Package(imp); sp != nil {
+								if g := sp.Var(e.Sel.Name); g != nil {
+									return TV{x.load(x.get(nil, g).(Ptr)), v.Type()}
+								}
+							}
+						}
+						panic(fmt.Sprintf("contract: unknown %s.%s", id.Name, e.Sel.Name))
+					}
+				}
+			}
+		}
 		base := x.eval(env, e.X)
 		return x.selectField(base, e.Sel.Name)
 	case *ast.IndexExpr:
 		base := x.eval(env, e.X)
 		idx := x.eval(env, e.Index)
+		if it, ok := idx.V.(S); ok {
+			x.addPoint(it.T, "idx")
+		}
 		switch kindOf(base.T) {
 		case kSlice:
 			el := base.T.Underlying().(*types.Slice).Elem()
@@ -419,10 +442,19 @@ func (x *X) evalCall(env *Env, e *ast.CallExpr) TV {
 	if sel, ok := e.Fun.(*ast.SelectorExpr); ok {
 		// method call
 		recv := x.eval(env, sel.X)
-		obj, _, _ := types.LookupFieldOrMethod(recv.T, true, env.pkg, sel.Sel.Name)
+		obj, path, _ := types.LookupFieldOrMethod(recv.T, true, env.pkg, sel.Sel.Name)
 		fo, ok := obj.(*types.Func)
 		if !ok {
 			panic(fmt.Sprintf("contract: no method %s on %s", sel.Sel.Name, recv.T))
+		}
+		// promoted method: walk the embedded fields
+		for _, fi := range path[:len(path)-1] {
+			t := recv.T
+			if pt, isPtr := t.Underlying().(*types.Pointer); isPtr {
+				t = pt.Elem()
+			}
+			st := t.Underlying().(*types.Struct)
+			recv = x.selectField(recv, st.Field(fi).Name())
 		}
 		if _, isIface := recv.T.Underlying().(*types.Interface); isIface {
 			panic("contract: interface method calls are not supported in specifications")
@@ -498,16 +530,41 @@ func (x *X) evalQuant(env *Env, e *ast.CallExpr, exists bool) TV {
 	x.sc.paramName = k
 	sub := env.child()
 	sub.vars[name] = TV{S{k, SInt}, types.Typ[types.Int]}
+	savePol := x.polarity
+	if exists {
+		x.polarity = -x.polarity
+	}
+	x.noFacts++
 	body := x.evalArgBool(sub, e.Args[3])
+	x.noFacts--
+	x.polarity = savePol
+	if exists {
+		body = not(body) // exists k. P  ==  not forall k. not P
+	}
 	ref := x.sc.Define("qbody", SBool, body)
 	x.sc.paramName = ""
-	if exists {
-		return TV{S{fmt.Sprintf("(exists ((%s Int)) (and (<= %s %s) (< %s %s) %s))", k, lo, k, k, hi, ref), SBool}, types.Typ[types.Bool]}
-	}
 	term := fmt.Sprintf("(forall ((%s Int)) (=> (and (<= %s %s) (< %s %s)) %s))", k, lo, k, k, hi, ref)
+	res := term
 	if strings.HasPrefix(ref, "(") {
+		// The quantified formula is represented by a proxy Q with
+		//   Q => instance at any term (added when a query is assembled)
+		//   not Q => the instance at a fresh skolem constant fails
+		// both valid; the exact definition is kept for the full variant only.
 		fnName := ref[1 : len(ref)-len(k)-2]
-		x.quants = append(x.quants, quant{guard: term, fn: fnName, lo: lo, hi: hi, pol: x.polarity})
+		q := x.sc.Fresh("Q", SBool)
+		sk := x.sc.Fresh("sk", SInt)
+		x.sc.add(fmt.Sprintf("(assert (= %s %s)) ;@inst", q, term))
+		x.sc.Assert(fmt.Sprintf("(=> (not %s) (and (<= %s %s) (< %s %s) (not (%s %s))))", q, lo, sk, sk, hi, fnName, sk))
+		x.quants = append(x.quants, quant{guard: q, fn: fnName, lo: lo, hi: hi, pol: x.polarity, line: len(x.sc.lines)})
+		if x.polarity >= 0 {
+			// the quantifier may have to be established (goal side): its skolem is an instantiation point.
+			// On the assumption side the skolem clause is vacuous and the point would only add instances.
+			x.addPoint(sk, "*")
+		}
+		res = q
 	}
-	return TV{S{term, SBool}, types.Typ[types.Bool]}
+	if exists {
+		res = not(res)
+	}
+	return TV{S{res, SBool}, types.Typ[types.Bool]}
 }
